@@ -1,5 +1,5 @@
 SPECIFICATION Spec
-CONSTANTS L = 4  Variant = "stable"  NObj = 4  Family = "small"
+CONSTANTS L = 4  IsoTest = "full"  Variant = "stable"  NObj = 4  Family = "small"
 INVARIANT TypeOK
 INVARIANT PainterRule
 INVARIANT PrefixRule
